@@ -71,7 +71,8 @@ class SObj:
             return str(v)
 
         fs = ",".join(f"{k}={short(v)}" for k, v in self.fields.items())
-        return f"<{self.cls!r}#{self.uid} {fs}>"
+        cn = repr(self.cls) if isinstance(self.cls, SCls) else getattr(self.cls, "__name__", "?")
+        return f"<{cn}#{self.uid} {fs}>"
 
 
 class Opaque:
